@@ -24,12 +24,13 @@ import (
 // Oracle: each invocation returns what it returns as the first invocation of a fresh VM.
 
 var plainKinds = map[string]string{
-	"g":   "cnt := 0\nfunc bump() { cnt = cnt + 1\n return cnt }\nbump()\nbump() * 10 + cnt",
-	"g2":  "acc := [0]\nfunc push(v) { acc.append(v)\n return len(acc) }\npush(1)\n[push(2), acc]",
-	"in":  "func h() { return mode * 2 }\n[h(), mode]",
-	"imp": "import strings\nstrings.to_upper(\"ab\")",
-	"gc":  "hits.append(1)\ntally[\"n\"] = len(tally) + 1\n[len(hits), len(tally)]",
-	"clo": "func mk() { c := mode\n return func() { c = c + 1\n return c } }\nk := mk()\nk()\n[k(), mode]",
+	"g":       "cnt := 0\nfunc bump() { cnt = cnt + 1\n return cnt }\nbump()\nbump() * 10 + cnt",
+	"g2":      "acc := [0]\nfunc push(v) { acc.append(v)\n return len(acc) }\npush(1)\n[push(2), acc]",
+	"in":      "func h() { return mode * 2 }\n[h(), mode]",
+	"imp":     "import strings\nstrings.to_upper(\"ab\")",
+	"topover": "func keep() { return 5 }\nx := [" + ones + ones + ones + ones + ones + ones + ones + ones + ones + "1]\nkeep()",
+	"gc":      "hits.append(1)\ntally[\"n\"] = len(tally) + 1\n[len(hits), len(tally)]",
+	"clo":     "func mk() { c := mode\n return func() { c = c + 1\n return c } }\nk := mk()\nk()\n[k(), mode]",
 }
 
 type plainStep struct {
@@ -67,6 +68,7 @@ func plainSource(kind string) string {
 type plainWorld struct {
 	env    *rt.Env
 	shared map[string]*compiler.Code
+	main   *compiler.Code // the VM's own main code (the source of kind "a", a code object of its own)
 }
 
 func newPlainWorld() (*plainWorld, string) {
@@ -78,11 +80,12 @@ func newPlainWorld() (*plainWorld, string) {
 		}
 		w.shared[k] = c
 	}
+	w.main, _ = w.env.Compile(plainSource("a"))
 	return w, ""
 }
 
 func plainAlphabetKinds(all bool) []string {
-	ks := []string{"a", "g", "g2", "gc", "in", "imp", "clo", "deff", "err0", "err2", "panic"}
+	ks := []string{"a", "g", "g2", "gc", "in", "imp", "clo", "deff", "err0", "err2", "panic", "topover"}
 	if all {
 		ks = append(ks, "b", "overflow")
 	}
@@ -100,6 +103,22 @@ func (w *plainWorld) run(h []plainStep) (out []string) {
 	var m *vm.VirtualMachine
 	var fn *object.Function
 	for _, s := range h {
+		if s.Kind == "run" {
+			// Run: the VM's own main code (the program "a"). After a RunCode of other code, or as the first
+			// invocation, it runs from the start; directly after another Run it has nothing left to do
+			if m == nil {
+				m = vm.New(w.main, vm.WithGlobals(w.env.Globals), vm.WithOS(w.env.OS))
+			}
+			err := m.Run(ctx)
+			var v object.Object
+			if err == nil {
+				if t, ok := m.TOS(); ok {
+					v = t
+				}
+			}
+			out = append(out, render(v, err))
+			continue
+		}
 		if strings.HasPrefix(s.Kind, "call") {
 			if fn == nil {
 				out = append(out, "no function")
@@ -130,7 +149,7 @@ func (w *plainWorld) run(h []plainStep) (out []string) {
 		g["tally"] = map[string]any{}
 		var err error
 		if m == nil {
-			m = vm.New(code, vm.WithGlobals(g), vm.WithOS(w.env.OS))
+			m = vm.New(w.main, vm.WithGlobals(g), vm.WithOS(w.env.OS))
 			err = m.RunCode(ctx, code, vm.WithGlobals(g))
 		} else if s.Bare {
 			err = m.RunCode(ctx, code)
@@ -180,7 +199,7 @@ func plainAlphabet(thorough bool) []plainStep {
 			out = append(out, plainStep{Kind: k, Bare: true})
 		}
 	}
-	out = append(out, plainStep{Kind: "callf"}, plainStep{Kind: "callfail"})
+	out = append(out, plainStep{Kind: "callf"}, plainStep{Kind: "callfail"}, plainStep{Kind: "run"})
 	if thorough {
 		out = append(out, plainStep{Kind: "callpanic"})
 	}
@@ -242,6 +261,9 @@ func plainHistories(r *ev.Run) {
 				break
 			}
 			want := fresh[s.String()]
+			if s.Kind == "run" && j > 0 && (h[j-1].Kind == "run" || strings.HasPrefix(h[j-1].Kind, "call")) {
+				continue // a Run directly after a Run (or after calls that followed one) continues a finished program: nothing to judge
+			}
 			if strings.HasPrefix(got[j], "GO PANIC") {
 				r.Report("C07:plain:gopanic", fmt.Sprintf("plain history %v: %s", h, got[j]), plainReplay{h}, got[j], want)
 				break
